@@ -233,6 +233,54 @@ func (x *Exec) dynamicCall(cs *callSite, fv ssa.Value, v *Val) *Val {
 	if m, ok := x.dynModels[name]; ok {
 		return m(x, cs)
 	}
+	if c := x.w.contractOf(cs.fr.fn); c != nil && name != "" {
+		var ens []*Clause
+		pure := false
+		for _, cl := range c.Clauses {
+			if cl.Name != name {
+				continue
+			}
+			switch cl.Kind {
+			case "dyncall-pure":
+				pure = true
+			case "dyncall-ensures":
+				ens = append(ens, cl)
+			}
+		}
+		if pure || len(ens) > 0 {
+			if pure {
+				x.assumeNote(fmt.Sprintf("function value %q in %s does not modify existing memory (assumed)", name, x.fname(cs.fr)))
+				na := x.sc.Fresh("alloc_dyn", cs.st.alloc.Sort)
+				x.sc.Assume(T(SBool, "(forall ((a Int)) (! (=> (select %s a) (select %s a)) :pattern ((select %s a))))", cs.st.alloc.S, na.S, na.S))
+				cs.st.alloc = na
+			} else {
+				x.havocExternal(cs, "dyncall")
+			}
+			res := x.freshResult(cs.st, "dyn_"+name, cs.res)
+			env := x.contractEnv(cs.fr, cs.st)
+			x.bindLiveNames(env, cs.fr, cs.st)
+			var vals []*Val
+			if res.Tuple != nil {
+				vals = res.Tuple
+			} else if cs.res != nil {
+				vals = []*Val{res}
+			}
+			for i, v := range vals {
+				cv := x.cvOfVal(v)
+				env.vars[fmt.Sprintf("result%d", i)] = cv
+			}
+			for _, cl := range ens {
+				t, err := x.evalBool(env, cl.Expr)
+				if err != nil {
+					x.unsupported("dyncall clause: " + err.Error())
+					continue
+				}
+				x.assume(cs.st, t)
+				x.assumeNote(fmt.Sprintf("assumed contract of function value %q in %s: %s", name, x.fname(cs.fr), cl.Text))
+			}
+			return res
+		}
+	}
 	x.assumeNote(fmt.Sprintf("call through function value %q in %s summarised as havoc of all heaps", fv.Name(), x.fname(cs.fr)))
 	x.havocAll(cs.st, "dyncall")
 	return x.freshResult(cs.st, "dyn", cs.res)
@@ -686,6 +734,24 @@ func (x *Exec) funcMods(fn *ssa.Function) *modSet {
 	}
 	m := newModSet()
 	x.modCache[fn] = m // recursion guard: partial result
+	if c := x.w.contractOf(fn); c != nil && c.Opts["trusted"] == "true" && c.Opts["modifies"] != "" {
+		// trusted contract with a declared frame
+		for _, what := range strings.Split(c.Opts["modifies"], ",") {
+			switch what {
+			case "none":
+			case "maps":
+				for h := range x.heapSorts {
+					if strings.HasPrefix(h, "mapdom_") || strings.HasPrefix(h, "mapval_") {
+						m.heaps[h] = true
+					}
+				}
+			default:
+				m.heaps[what] = true
+			}
+		}
+		m.alloc = true
+		return m
+	}
 	blocks := map[*ssa.BasicBlock]bool{}
 	for _, b := range fn.Blocks {
 		blocks[b] = true
